@@ -56,6 +56,9 @@ type Lifter struct {
 	WireAdv int      // advances derived from a length prefix on the wire
 	curRoot string
 	Safe    bool     // reader: checks are required
+	// RecClass maps the Go name of a nested record type to "struct", "message"
+	// or "union" ("" = unknown); supplied by the caller from the schema it built.
+	RecClass func(goName string) string
 }
 
 func (l *Lifter) fail(rule, leaf string, pos token.Pos, format string, a ...interface{}) {
